@@ -148,6 +148,12 @@ func main() {
 		}
 	case "api":
 		runAPI(readCases(*inputs), *rep, *conc)
+	case "canon":
+		// file names on stdin -> canonical tree (parentheses elided) or ERR
+		sc := bufio.NewScanner(os.Stdin)
+		for sc.Scan() {
+			fmt.Println(canonOfFile(sc.Text()))
+		}
 	case "parses":
 		// reads file names from stdin, prints 1/0 per line
 		sc := bufio.NewScanner(os.Stdin)
